@@ -35,7 +35,11 @@ Definition ev_keeps (s s' : evst) : Prop :=
   e_evaluating s' = e_evaluating s /\
   (e_evaluating s = true -> e_alive s' = e_alive s /\ exists l, e_queue s' = e_queue s ++ l).
 
-Record wle_on (P Q : nat -> Prop) (w w' : world) : Prop := {
+Definition emitting_in (w : world) (i : nat) : Prop := exists m, get_impl w i = Some m /\ i_emitting m = true.
+
+(* P: Impls whose flags/occupancy must be kept; Q: evaluators whose flag/queue must be kept;
+   T: Impls for which no direct slot invocation may be logged while they were already emitting *)
+Record wle_on (P Q T : nat -> Prop) (w w' : world) : Prop := {
   wle_impls : forall i m, get_impl w i = Some m ->
               exists m', get_impl w' i = Some m' /\ issued_mono m m' /\ (P i -> impl_keeps m m');
   wle_evs : forall e s, lookup (w_evs w) e = Some s ->
@@ -44,10 +48,11 @@ Record wle_on (P Q : nat -> Prop) (w w' : world) : Prop := {
                   i_emitting m' = false /\ i_dde m' = false;
   wle_new_evs : forall e s', lookup (w_evs w') e = Some s' -> lookup (w_evs w) e = None -> Q e ->
                 e_evaluating s' = false;
-  wle_trace : exists l, w_trace w' = l ++ w_trace w }.
+  wle_trace : exists l, w_trace w' = l ++ w_trace w /\
+              forall i k lab args, In (EvSlot (Some (i, k)) true lab args) l -> T i -> P i -> ~ emitting_in w i }.
 
 Definition all (_ : nat) : Prop := True.
-Definition wle := wle_on all all.
+Definition wle := wle_on all all all.
 
 Lemma issued_mono_refl m : issued_mono m m.
 Proof. split; [exists []; reflexivity|auto]. Qed.
@@ -73,19 +78,19 @@ Proof.
   split; [congruence|]. exists (l1 ++ l2). rewrite Q2, Q1, app_assoc; reflexivity.
 Qed.
 
-Lemma wle_on_refl (P Q : nat -> Prop) w : wle_on P Q w w.
+Lemma wle_on_refl (P Q T : nat -> Prop) w : wle_on P Q T w w.
 Proof.
   constructor.
   - intros i m H; exists m; split; [assumption|]. split; [apply issued_mono_refl|intros _; apply impl_keeps_refl].
   - intros e s H; exists s; split; [assumption|intros _; apply ev_keeps_refl].
   - intros i m' H1 H2; congruence.
   - intros e s' H1 H2; congruence.
-  - exists []; reflexivity.
+  - exists []; split; [reflexivity|intros ? ? ? ? []].
 Qed.
 
-Lemma wle_on_trans (P Q : nat -> Prop) a b c : wle_on P Q a b -> wle_on P Q b c -> wle_on P Q a c.
+Lemma wle_on_trans (P Q T : nat -> Prop) a b c : wle_on P Q T a b -> wle_on P Q T b c -> wle_on P Q T a c.
 Proof.
-  intros [I1 E1 NI1 NE1 [l1 T1]] [I2 E2 NI2 NE2 [l2 T2]]. constructor.
+  intros [I1 E1 NI1 NE1 [l1 [T1 V1]]] [I2 E2 NI2 NE2 [l2 [T2 V2]]]. constructor.
   - intros i m H. destruct (I1 _ _ H) as (m' & H' & M1 & K1). destruct (I2 _ _ H') as (m'' & H'' & M2 & K2).
     exists m''; split; [assumption|]. split; [eapply issued_mono_trans; eassumption|].
     intros Hp. eapply impl_keeps_trans; eauto.
@@ -100,19 +105,24 @@ Proof.
     + pose proof (NE1 _ _ Hb Ha Hq) as Eb. destruct (E2 _ _ Hb) as (s2 & H2 & K2).
       rewrite Hc in H2; inversion H2; subst s2. destruct (K2 Hq) as (E & _). congruence.
     + eapply NE2; eassumption.
-  - exists (l2 ++ l1). rewrite T2, T1, app_assoc; reflexivity.
+  - exists (l2 ++ l1). split; [rewrite T2, T1, app_assoc; reflexivity|].
+    intros i k lab args Hin Ht Hp. apply in_app_or in Hin. destruct Hin as [Hin|Hin].
+    + intros (m & Hm & Hem). destruct (I1 _ _ Hm) as (m' & Hm' & _ & K). destruct (K Hp) as (E & _).
+      eapply V2; [exact Hin|exact Ht|exact Hp|]. exists m'; split; [assumption|congruence].
+    + eapply V1; eassumption.
 Qed.
 
-Lemma wle_on_weaken (P P' Q Q' : nat -> Prop) w w' :
-  (forall i, P' i -> P i) -> (forall e, Q' e -> Q e) -> wle_on P Q w w' -> wle_on P' Q' w w'.
+Lemma wle_on_weaken (P P' Q Q' T T' : nat -> Prop) w w' :
+  (forall i, P' i -> P i) -> (forall e, Q' e -> Q e) -> (forall i, T' i -> T i) -> wle_on P Q T w w' -> wle_on P' Q' T' w w'.
 Proof.
-  intros HP HQ [I E NI NE T]. constructor; [| | | |assumption].
+  intros HP HQ HT [I E NI NE [l [Tl Vl]]]. constructor.
   - intros i m H. destruct (I _ _ H) as (m' & H' & M & K). exists m'. split; [assumption|]. split; [assumption|].
     intros Hp. apply K. apply HP; assumption.
   - intros e s H. destruct (E _ _ H) as (s' & H' & K). exists s'; split; [assumption|].
     intros Hq. apply K. apply HQ; assumption.
   - intros i m' H1 H2 Hp. eapply NI; eauto.
   - intros e s' H1 H2 Hq. eapply NE; eauto.
+  - exists l; split; [assumption|]. intros i k lab args Hin Ht Hp. eapply Vl; eauto.
 Qed.
 
 (* ---------------------------------------------------------------------------------------------- *)
@@ -140,8 +150,8 @@ Proof.
   - eapply Hw; eassumption.
 Qed.
 
-Lemma wle_put (P Q : nat -> Prop) w i m m' :
-  get_impl w i = Some m -> issued_mono m m' -> (P i -> impl_keeps m m') -> wle_on P Q w (put_impl w i m').
+Lemma wle_put (P Q T : nat -> Prop) w i m m' :
+  get_impl w i = Some m -> issued_mono m m' -> (P i -> impl_keeps m m') -> wle_on P Q T w (put_impl w i m').
 Proof.
   intros Hg Hm Hk. constructor.
   - intros j mj Hj. destruct (Nat.eq_dec i j) as [<-|Hne].
@@ -152,11 +162,20 @@ Proof.
   - intros j mj' Hj Hn Hp. destruct (Nat.eq_dec i j) as [<-|Hne]; [congruence|].
     rewrite get_put_other in Hj by assumption. congruence.
   - intros e s' H1 H2; cbn in H1; congruence.
-  - exists []; reflexivity.
+  - exists []; split; [reflexivity|intros ? ? ? ? []].
 Qed.
 
-Lemma wle_same_impls_evs (P Q : nat -> Prop) w w' :
-  w_impls w' = w_impls w -> w_evs w' = w_evs w -> (exists l, w_trace w' = l ++ w_trace w) -> wle_on P Q w w'.
+Definition nondirect (l : list event) : Prop := forall src lab args, ~ In (EvSlot src true lab args) l.
+Lemma nondirect_nil : nondirect [].
+Proof. intros ? ? ? []. Qed.
+Lemma nondirect_one e : (forall src lab args, e <> EvSlot src true lab args) -> nondirect [e].
+Proof. intros H src lab args [E|[]]. eapply H; eauto. Qed.
+
+Lemma wle_same_impls_evs_gen (P Q T : nat -> Prop) w w' :
+  w_impls w' = w_impls w -> w_evs w' = w_evs w ->
+  (exists l, w_trace w' = l ++ w_trace w /\
+             forall i k lab args, In (EvSlot (Some (i, k)) true lab args) l -> T i -> P i -> ~ emitting_in w i) ->
+  wle_on P Q T w w'.
 Proof.
   intros Hi He Ht. constructor; [| | | |assumption].
   - intros i m H. exists m. unfold get_impl in *. rewrite Hi. split; [assumption|].
@@ -166,15 +185,30 @@ Proof.
   - intros e s' H1 H2. rewrite He in H1. congruence.
 Qed.
 
+Lemma wle_same_impls_evs (P Q T : nat -> Prop) w w' :
+  w_impls w' = w_impls w -> w_evs w' = w_evs w -> (exists l, w_trace w' = l ++ w_trace w /\ nondirect l) -> wle_on P Q T w w'.
+Proof.
+  intros Hi He [l [Ht Hn]]. apply wle_same_impls_evs_gen; [assumption|assumption|].
+  exists l; split; [assumption|intros i k lab args Hin; exfalso; eapply Hn; eauto].
+Qed.
+
+Lemma wle_log_direct (P Q T : nat -> Prop) w i k lab args :
+  ~ T i -> wle_on P Q T w (log (EvSlot (Some (i, k)) true lab args) w).
+Proof.
+  intros Hn. apply wle_same_impls_evs_gen; [reflexivity|reflexivity|].
+  eexists [_]; split; [reflexivity|]. intros i' k' lab' args' [E|[]] Ht. inversion E; subst. contradiction.
+Qed.
+
 Lemma winv_same_impls w w' : w_impls w' = w_impls w -> winv w -> winv w'.
 Proof. intros H Hw i m Hg. unfold get_impl in Hg. rewrite H in Hg. eapply Hw; eassumption. Qed.
 
+Ltac nd := first [ apply nondirect_nil | apply nondirect_one; (let E := fresh in intros ? ? ? E; discriminate E) ].
 Ltac same_impls :=
-  first [ apply wle_same_impls_evs; [reflexivity|reflexivity|first [exists []; reflexivity | eexists [_]; reflexivity]]
+  first [ apply wle_same_impls_evs; [reflexivity|reflexivity|first [exists []; split; [reflexivity|nd] | eexists [_]; split; [reflexivity|nd]]]
         | eapply winv_same_impls; [reflexivity|eassumption] ].
 
-Lemma wle_set_evs (P Q : nat -> Prop) w e s s' :
-  lookup (w_evs w) e = Some s -> (Q e -> ev_keeps s s') -> wle_on P Q w (set_evs w (bind_key (w_evs w) e s')).
+Lemma wle_set_evs (P Q T : nat -> Prop) w e s s' :
+  lookup (w_evs w) e = Some s -> (Q e -> ev_keeps s s') -> wle_on P Q T w (set_evs w (bind_key (w_evs w) e s')).
 Proof.
   intros He Hk. constructor.
   - intros i m H. exists m. split; [assumption|]. split; [apply issued_mono_refl|intros _; apply impl_keeps_refl].
@@ -185,11 +219,14 @@ Proof.
   - intros i m' H1 H2. unfold get_impl in *; cbn in H1; congruence.
   - intros e0 s0 H1 H2. cbn [w_evs set_evs] in H1. rewrite lookup_bind in H1.
     destruct (Nat.eqb_spec e0 e) as [->|Hne]; congruence.
-  - exists []; reflexivity.
+  - exists []; split; [reflexivity|intros ? ? ? ? []].
 Qed.
 
-Lemma wle_log (P Q : nat -> Prop) w ev : wle_on P Q w (log ev w).
-Proof. apply wle_same_impls_evs; [reflexivity|reflexivity|eexists [_]; reflexivity]. Qed.
+Lemma wle_log (P Q T : nat -> Prop) w ev :
+  (forall src lab args, ev <> EvSlot src true lab args) -> wle_on P Q T w (log ev w).
+Proof.
+  intros H. apply wle_same_impls_evs; [reflexivity|reflexivity|eexists [_]; split; [reflexivity|apply nondirect_one; assumption]].
+Qed.
 
 (* ---------------------------------------------------------------------------------------------- *)
 (* table-level facts *)
@@ -251,24 +288,28 @@ Proof. intros H; exact H. Qed.
 (* primitives of the model *)
 
 Lemma wle_upgrade_impl (Q : nat -> Prop) w w' i m0 :
-  get_impl w i = Some m0 ->
-  wle_on (fun j => j <> i) Q w w' ->
+  get_impl w i = Some m0 -> i_emitting m0 = false ->
+  wle_on (fun j => j <> i) Q (fun j => j <> i) w w' ->
   (forall m m', get_impl w i = Some m -> get_impl w' i = Some m' -> impl_keeps m m') ->
-  wle_on all Q w w'.
+  wle_on all Q all w w'.
 Proof.
-  intros H0 [I E NI NE T] Hi. constructor; [|assumption| |assumption|assumption].
+  intros H0 Hem0 [I E NI NE [l [Tl Vl]]] Hi. constructor; [|assumption| |assumption|].
   - intros j m H. destruct (I _ _ H) as (m' & H' & M & K). exists m'; split; [assumption|]. split; [assumption|].
     intros _. destruct (Nat.eq_dec j i) as [->|Hne]; [eapply Hi; eassumption|apply K; assumption].
   - intros j m' H1 H2 _. destruct (Nat.eq_dec j i) as [->|Hne]; [congruence|]. eapply NI; eassumption.
+  - exists l; split; [assumption|]. intros j k lab args Hin _ _.
+    destruct (Nat.eq_dec j i) as [->|Hne].
+    + intros (m & Hm & Hem). congruence.
+    + eapply Vl; eassumption.
 Qed.
 
-Lemma wle_upgrade_ev (P : nat -> Prop) w w' e s0 :
+Lemma wle_upgrade_ev (P T : nat -> Prop) w w' e s0 :
   lookup (w_evs w) e = Some s0 ->
-  wle_on P (fun j => j <> e) w w' ->
+  wle_on P (fun j => j <> e) T w w' ->
   (forall s s', lookup (w_evs w) e = Some s -> lookup (w_evs w') e = Some s' -> ev_keeps s s') ->
-  wle_on P all w w'.
+  wle_on P all T w w'.
 Proof.
-  intros H0 [I E NI NE T] He. constructor; [assumption| |assumption| |assumption].
+  intros H0 [I E NI NE Tr] He. constructor; [assumption| |assumption| |assumption].
   - intros j s H. destruct (E _ _ H) as (s' & H' & K). exists s'; split; [assumption|].
     intros _. destruct (Nat.eq_dec j e) as [->|Hne]; [eapply He; eassumption|apply K; assumption].
   - intros j s' H1 H2 _. destruct (Nat.eq_dec j e) as [->|Hne]; [congruence|]. eapply NE; eassumption.
@@ -291,7 +332,7 @@ Lemma ev_enqueue_ok w e h v : winv w -> winv (ev_enqueue w e h v) /\ wle w (ev_e
 Proof.
   intros Hw. unfold ev_enqueue. destruct (lookup (w_evs w) e) as [s|] eqn:He; [|split; [auto|apply wle_on_refl]].
   split; [same_impls|].
-  eapply wle_on_trans; [|apply wle_log].
+  eapply wle_on_trans; [|apply wle_log; (let E := fresh in intros ? ? ? E; discriminate E)].
   eapply wle_set_evs; [eassumption|]. intros _. split; cbn; [reflexivity|]. intros _. split; [reflexivity|eauto].
 Qed.
 
@@ -454,7 +495,7 @@ Qed.
 
 Lemma finish_emit_ok w i n :
   winv w -> (forall m, get_impl w i = Some m -> g_size (i_conns m) <= n) ->
-  winv (finish_emit w i n) /\ wle_on (fun j => j <> i) all w (finish_emit w i n).
+  winv (finish_emit w i n) /\ wle_on (fun j => j <> i) all all w (finish_emit w i n).
 Proof.
   intros Hw Hn. unfold finish_emit. destruct (get_impl w i) as [m|] eqn:Hm; [|split; [auto|apply wle_on_refl]].
   pose proof (Hw _ _ Hm) as Hok. specialize (Hn _ eq_refl).
@@ -462,14 +503,14 @@ Proof.
   set (w1 := put_impl w i m1).
   assert (Hw1 : winv w1) by (apply winv_put; [assumption|apply impl_ok_emitting; assumption]).
   assert (Hg1 : get_impl w1 i = Some m1) by (eapply get_put_same; eassumption).
-  assert (L1 : wle_on (fun j => j <> i) all w w1).
+  assert (L1 : wle_on (fun j => j <> i) all all w w1).
   { eapply wle_put; [eassumption|imono|]. intros Hc; contradiction Hc; reflexivity. }
   set (w2 := if i_dde m then disconnect_where c_tbd w1 i (seq 0 n) else w1).
   assert (H2 : winv w2 /\ wle w1 w2).
   { unfold w2. destruct (i_dde m); [apply disconnect_where_ok; assumption|split; [auto|apply wle_on_refl]]. }
   destruct H2 as [Hw2 L2].
-  assert (L12 : wle_on (fun j => j <> i) all w w2).
-  { eapply wle_on_trans; [exact L1|]. eapply wle_on_weaken; [| |exact L2]; unfold all; auto. }
+  assert (L12 : wle_on (fun j => j <> i) all all w w2).
+  { eapply wle_on_trans; [exact L1|]. eapply wle_on_weaken; [| | |exact L2]; unfold all; auto. }
   assert (H3 : exists m2, get_impl w2 i = Some m2 /\ forall k c, g_get (i_conns m2) k = Some c -> c_tbd c = false).
   { unfold w2. destruct (i_dde m) eqn:Hd.
     - destruct (sweep_ok (seq 0 n) w1 i m1 Hw1 Hg1 eq_refl) as (m2 & Hg2 & _ & _ & _ & Hs & Hin & _).
@@ -501,7 +542,7 @@ Proof.
   set (w2 := if i_dde m then disconnect_where c_tbd w1 i (seq 0 n) else w1).
   assert (H2 : wle w1 w2).
   { unfold w2. destruct (i_dde m); [apply disconnect_where_ok; assumption|apply wle_on_refl]. }
-  destruct (wle_impls _ _ _ _ H2 _ _ Hg1) as (m2 & Hg2 & _ & K). rewrite Hg2.
+  destruct (wle_impls _ _ _ _ _ H2 _ _ Hg1) as (m2 & Hg2 & _ & K). rewrite Hg2.
   eexists; split; [eapply get_put_same; eassumption|]. cbn. auto.
 Qed.
 
@@ -511,47 +552,73 @@ Qed.
 Definition good (R : world -> nat -> res) : Prop :=
   forall w sid, winv w -> winv (fst (R w sid)) /\ wle w (fst (R w sid)).
 
-Definition okres (w : world) (r : res) : Prop := winv (fst r) /\ wle w (fst r).
+Definition okresT (T : nat -> Prop) (w : world) (r : res) : Prop := winv (fst r) /\ wle_on all all T w (fst r).
+Definition okres := okresT all.
 
-Lemma okres_ok w : winv w -> okres w (ok w).
+Lemma okresT_ok T w : winv w -> okresT T w (ok w).
 Proof. intros H; split; [assumption|apply wle_on_refl]. Qed.
-Lemma okres_throw w e : winv w -> okres w (throw w e).
+Lemma okresT_throw T w e : winv w -> okresT T w (throw w e).
 Proof. intros H; split; [assumption|apply wle_on_refl]. Qed.
-Lemma okres_trans w w1 r : winv w1 /\ wle w w1 -> okres w1 r -> okres w r.
+Lemma okresT_trans T w w1 r : winv w1 /\ wle_on all all T w w1 -> okresT T w1 r -> okresT T w r.
 Proof. intros [H1 L1] [H2 L2]. split; [assumption|eapply wle_on_trans; eassumption]. Qed.
+Lemma okresT_weaken (T T' : nat -> Prop) w r : (forall i, T' i -> T i) -> okresT T w r -> okresT T' w r.
+Proof. intros H [H1 L1]. split; [assumption|]. eapply wle_on_weaken; [| | |exact L1]; auto. Qed.
+Lemma okres_ok w : winv w -> okres w (ok w).
+Proof. apply okresT_ok. Qed.
+Lemma okres_throw w e : winv w -> okres w (throw w e).
+Proof. apply okresT_throw. Qed.
+Lemma okres_trans w w1 r : winv w1 /\ wle w w1 -> okres w1 r -> okres w r.
+Proof. apply okresT_trans. Qed.
 
 Section Contract.
   Variable pass_fuel : nat.
   Variable R : world -> nat -> res.
   Hypothesis HR : good R.
 
-  Lemma invoke_slot_ok w src label args sid : winv w -> okres w (invoke_slot R w src label args sid).
+  (* a slot called from an evaluation pass *)
+  Lemma invoke_slot_pass_ok w src label args sid : winv w -> okres w (invoke_slot R w src false label args sid).
   Proof.
     intros Hw. unfold invoke_slot.
-    eapply okres_trans; [split; [|apply wle_log]; same_impls|]. apply HR. same_impls.
+    apply okres_trans with (w1 := log (EvSlot src false label args) w).
+    - split; [same_impls|apply wle_log; (let E := fresh in intros ? ? ? E; discriminate E)].
+    - apply HR. same_impls.
   Qed.
 
-  Lemma fire_ok w i k c args : winv w -> okres w (fire R w i k c args).
+  (* a slot called from the emission walk of Impl i: the only direct invocation logged on behalf of i *)
+  Lemma invoke_slot_direct_ok w i k label args sid :
+    winv w -> okresT (fun j => j <> i) w (invoke_slot R w (Some (i, k)) true label args sid).
+  Proof.
+    intros Hw. unfold invoke_slot.
+    apply okresT_trans with (w1 := log (EvSlot (Some (i, k)) true label args) w).
+    - split; [same_impls|]. apply wle_log_direct. intros Hc; apply Hc; reflexivity.
+    - eapply okresT_weaken; [|apply HR; same_impls]. unfold all; auto.
+  Qed.
+
+  Lemma fire_ok w i k c args : winv w -> okresT (fun j => j <> i) w (fire R w i k c args).
   Proof.
     intros Hw. unfold fire. destruct (c_kind c).
-    - apply invoke_slot_ok; assumption.
-    - eapply okres_trans; [|apply invoke_slot_ok; same_impls]. split; same_impls.
-    - eapply okres_trans; [apply handle_disconnect_ok; assumption|].
-      apply invoke_slot_ok. apply handle_disconnect_ok; assumption.
-    - destruct (ev_alive w ev); [|apply okres_throw; assumption].
-      unfold ok, okres; cbn [fst]. apply ev_enqueue_ok; assumption.
+    - apply invoke_slot_direct_ok; assumption.
+    - eapply okresT_trans; [|apply invoke_slot_direct_ok; same_impls]. split; same_impls.
+    - eapply okresT_trans.
+      + destruct (handle_disconnect_ok w {| h_impl := Some i; h_id := Some k |} Hw) as [H1 L1].
+        split; [exact H1|]. eapply wle_on_weaken; [| | |exact L1]; unfold all; auto.
+      + apply invoke_slot_direct_ok. apply handle_disconnect_ok; assumption.
+    - destruct (ev_alive w ev); [|apply okresT_throw; assumption].
+      unfold ok, okresT; cbn [fst]. destruct (ev_enqueue_ok w ev {| h_impl := Some i; h_id := Some k |}
+        {| v_label := c_label c; v_args := args; v_script := c_script c |} Hw) as [H1 L1].
+      split; [exact H1|]. eapply wle_on_weaken; [| | |exact L1]; unfold all; auto.
   Qed.
 
-  Lemma walk_ok i args idxs : forall w, winv w -> okres w (walk R w i args idxs).
+  Lemma walk_ok i args idxs : forall w, winv w -> okresT (fun j => j <> i) w (walk R w i args idxs).
   Proof.
-    induction idxs as [|x r IH]; intros w Hw; cbn [walk]; [apply okres_ok; assumption|].
-    destruct (get_impl w i) as [m|]; [|apply okres_throw; assumption].
+    induction idxs as [|x r IH]; intros w Hw; cbn [walk]; [apply okresT_ok; assumption|].
+    destruct (get_impl w i) as [m|]; [|apply okresT_throw; assumption].
     destruct (g_indexAt (i_conns m) x) as [k|]; [|apply IH; assumption].
     destruct (g_get (i_conns m) k) as [c|]; [|apply IH; assumption].
     destruct (c_blocked c); [apply IH; assumption|].
     pose proof (fire_ok w i k c args Hw) as Hf.
     destruct (fire R w i k c args) as [w' [e|]]; [exact Hf|].
-    eapply okres_trans; [exact Hf|]. apply IH. apply Hf.
+    eapply okresT_trans; [exact Hf|]. apply IH. apply Hf.
   Qed.
 
   Lemma sig_emit_ok w s args : winv w -> okres w (sig_emit R w s args).
@@ -563,12 +630,12 @@ Section Contract.
     set (m1 := impl_with_flags m true (i_dde m)).
     set (w1 := put_impl w i m1).
     assert (Hw1 : winv w1) by (apply winv_put; [assumption|apply impl_ok_emitting; eapply Hw; eassumption]).
-    assert (L1 : wle_on (fun j => j <> i) all w w1).
+    assert (L1 : wle_on (fun j => j <> i) all all w w1).
     { eapply wle_put; [eassumption|imono|]. intros Hc; contradiction Hc; reflexivity. }
     pose proof (walk_ok i args (seq 0 (g_size (i_conns m))) w1 Hw1) as [Hw2 L2].
     destruct (walk R w1 i args (seq 0 (g_size (i_conns m)))) as [w2 e]. cbn [fst] in *.
     assert (Hg1 : get_impl w1 i = Some m1) by (eapply get_put_same; eassumption).
-    destruct (wle_impls _ _ _ _ L2 _ _ Hg1) as (m2 & Hg2 & _ & K2).
+    destruct (wle_impls _ _ _ _ _ L2 _ _ Hg1) as (m2 & Hg2 & _ & K2).
     assert (Hsz : forall mm, get_impl w2 i = Some mm -> g_size (i_conns mm) <= g_size (i_conns m)).
     { intros mm Hmm. rewrite Hg2 in Hmm; inversion Hmm; subst mm.
       destruct (K2 I) as (_ & Hk & _). destruct (Hk eq_refl) as [Hkeys _].
@@ -576,10 +643,11 @@ Section Contract.
       unfold g_size. cbn [i_conns m1 impl_with_flags] in Hkeys. lia. }
     destruct (finish_emit_ok w2 i (g_size (i_conns m)) Hw2 Hsz) as [Hw3 L3].
     split; [assumption|]. cbn [fst].
-    assert (L : wle_on (fun j => j <> i) all w (finish_emit w2 i (g_size (i_conns m)))).
-    { eapply wle_on_trans; [exact L1|]. eapply wle_on_trans; [|exact L3].
-      eapply wle_on_weaken; [| |exact L2]; unfold all; auto. }
-    eapply wle_upgrade_impl; [exact Hm|exact L|].
+    assert (L : wle_on (fun j => j <> i) all (fun j => j <> i) w (finish_emit w2 i (g_size (i_conns m)))).
+    { eapply wle_on_trans; [eapply wle_on_weaken; [| | |exact L1]; unfold all; auto|].
+      eapply wle_on_trans; [|eapply wle_on_weaken; [| | |exact L3]; unfold all; auto].
+      eapply wle_on_weaken; [| | |exact L2]; unfold all; auto. }
+    eapply wle_upgrade_impl; [exact Hm|exact Hem|exact L|].
     intros m0 m' H0 H'. rewrite Hm in H0; inversion H0; subst m0.
     destruct (finish_emit_flag w2 i (g_size (i_conns m)) m2 Hg2 Hw2) as (m3 & Hg3 & He3 & Hd3).
     rewrite Hg3 in H'; inversion H'; subst m'.
@@ -591,12 +659,12 @@ Section Contract.
     induction fuel as [|f IH]; intros w pos Hw; cbn [pass_loop]; [apply okres_throw; assumption|].
     destruct (lookup (w_evs w) e) as [s|]; [|apply okres_throw; assumption].
     destruct (nth_error (e_queue s) pos) as [[h v]|]; [|apply okres_ok; assumption].
-    pose proof (invoke_slot_ok w (handle_src h) (v_label v) (v_args v) (v_script v) Hw) as Hf.
-    destruct (invoke_slot R w (handle_src h) (v_label v) (v_args v) (v_script v)) as [w' [x|]]; [exact Hf|].
+    pose proof (invoke_slot_pass_ok w (handle_src h) (v_label v) (v_args v) (v_script v) Hw) as Hf.
+    destruct (invoke_slot R w (handle_src h) false (v_label v) (v_args v) (v_script v)) as [w' [x|]]; [exact Hf|].
     eapply okres_trans; [exact Hf|]. apply IH. apply Hf.
   Qed.
 
-  Lemma ev_finish_ok w e : winv w -> winv (ev_finish w e) /\ wle_on all (fun j => j <> e) w (ev_finish w e).
+  Lemma ev_finish_ok w e : winv w -> winv (ev_finish w e) /\ wle_on all (fun j => j <> e) all w (ev_finish w e).
   Proof.
     intros Hw. unfold ev_finish. destruct (lookup (w_evs w) e) as [s|] eqn:He; [|split; [auto|apply wle_on_refl]].
     split; [same_impls|]. eapply wle_set_evs; [eassumption|]. intros Hc; contradiction Hc; reflexivity.
@@ -610,20 +678,20 @@ Section Contract.
     destruct (e_evaluating s) eqn:Hev; [apply okres_ok; assumption|].
     set (w1 := set_evs w (bind_key (w_evs w) e {| e_alive := true; e_queue := e_queue s; e_evaluating := true |})).
     assert (Hw1 : winv w1) by (unfold w1; same_impls).
-    assert (L1 : wle_on all (fun j => j <> e) w w1).
+    assert (L1 : wle_on all (fun j => j <> e) all w w1).
     { eapply wle_set_evs; [eassumption|]. intros Hc; contradiction Hc; reflexivity. }
     pose proof (pass_loop_ok e pass_fuel w1 0 Hw1) as [Hw2 L2].
     destruct (pass_loop R pass_fuel w1 e 0) as [w2 x]. cbn [fst] in *.
     destruct (ev_finish_ok w2 e Hw2) as [Hw3 L3].
     split; [assumption|]. cbn [fst].
-    assert (L : wle_on all (fun j => j <> e) w (ev_finish w2 e)).
+    assert (L : wle_on all (fun j => j <> e) all w (ev_finish w2 e)).
     { eapply wle_on_trans; [exact L1|]. eapply wle_on_trans; [|exact L3].
-      eapply wle_on_weaken; [| |exact L2]; unfold all; auto. }
+      eapply wle_on_weaken; [| | |exact L2]; unfold all; auto. }
     eapply wle_upgrade_ev; [exact He|exact L|].
     intros s0 s' H0 H'. rewrite He in H0; inversion H0; subst s0.
     assert (Hg1 : lookup (w_evs w1) e = Some {| e_alive := true; e_queue := e_queue s; e_evaluating := true |})
       by (unfold w1; cbn [w_evs set_evs]; apply lookup_bind_same).
-    destruct (wle_evs _ _ _ _ L2 _ _ Hg1) as (s2 & Hg2 & _).
+    destruct (wle_evs _ _ _ _ _ L2 _ _ Hg1) as (s2 & Hg2 & _).
     unfold ev_finish in H'. rewrite Hg2 in H'. cbn [w_evs set_evs] in H'. rewrite lookup_bind_same in H'.
     inversion H'; subst s'. split; cbn; [congruence|]. rewrite Hev; discriminate.
   Qed.
@@ -648,7 +716,7 @@ Section Contract.
         intros k' c' Hg Ht. cbn [impl_issue i_conns i_dde] in *. rewrite Hget in Hg.
         destruct (gidx_eqb k k'); [inversion Hg; subst; congruence|eapply Hmk; eassumption].
       + apply wle_on_trans with (b := put_impl w i (impl_issue m g k));
-          [|apply wle_same_impls_evs; [reflexivity|reflexivity|exists []; reflexivity]].
+          [|apply wle_same_impls_evs; [reflexivity|reflexivity|exists []; split; [reflexivity|nd]]].
         eapply wle_put; [eassumption| |].
         { split; [exists [k]; reflexivity|]. intros k0 Hst. cbn [impl_issue i_conns].
           eapply stale_allocate; [apply Hwf|exact Hfr|exact Hlt|exact Hal'|exact Hst]. }
@@ -680,7 +748,7 @@ Section Contract.
           destruct (j - length (w_impls w)) as [|n]; cbn in Hj; [|destruct n; discriminate].
           inversion Hj; subst; auto.
         - intros e se' H1 H2. unfold w1', w1 in H1; cbn in H1. congruence.
-        - exists []; reflexivity. }
+        - exists []; split; [reflexivity|intros ? ? ? ? []]. }
       destruct (N.ltb_spec (N.of_nat 0 + 1) W) as [Hlt|Hge]; cbn [negb]; [|apply okres_throw; assumption].
       change (i_conns impl_new) with (@g_empty conn).
       destruct (g_insert g_empty c) as [g k] eqn:Hins.
@@ -695,7 +763,7 @@ Section Contract.
         destruct (gidx_eqb k k'); [inversion Hgk; subst; congruence|]. unfold g_get in Hgk; cbn in Hgk. destruct (gi_index k'); discriminate.
       + eapply wle_on_trans; [exact L1|].
         apply wle_on_trans with (b := put_impl w1' i (impl_issue impl_new g k));
-          [|apply wle_same_impls_evs; [reflexivity|reflexivity|exists []; reflexivity]].
+          [|apply wle_same_impls_evs; [reflexivity|reflexivity|exists []; split; [reflexivity|nd]]].
         eapply wle_put; [eassumption| |].
         { split; [exists [k]; reflexivity|]. intros k0 Hst. cbn [impl_issue i_conns].
           eapply stale_allocate; [apply wf_alloc_empty|apply fresh_inv_empty|exact Hlt|exact Hal'|exact Hst]. }
@@ -713,7 +781,7 @@ Proof. intros H; split; [assumption|apply wle_on_refl]. Qed.
 Lemma okw_step w x y : okw w x -> (winv x -> okw x y) -> okw w y.
 Proof. intros [H1 L1] H. destruct (H H1) as [H2 L2]. split; [assumption|eapply wle_on_trans; eassumption]. Qed.
 Lemma okw_same w x y :
-  okw w x -> w_impls y = w_impls x -> w_evs y = w_evs x -> (exists l, w_trace y = l ++ w_trace x) -> okw w y.
+  okw w x -> w_impls y = w_impls x -> w_evs y = w_evs x -> (exists l, w_trace y = l ++ w_trace x /\ nondirect l) -> okw w y.
 Proof.
   intros [H1 L1] Hi He Ht. split; [eapply winv_same_impls; eassumption|].
   eapply wle_on_trans; [exact L1|]. apply wle_same_impls_evs; assumption.
@@ -723,19 +791,19 @@ Ltac okw_tac Hw :=
   repeat first
     [ apply okw_refl; exact Hw
     | match goal with
-      | |- okw _ (set_sigs ?x _) => apply (okw_same _ x); [|reflexivity|reflexivity|exists []; reflexivity]
-      | |- okw _ (set_handles ?x _) => apply (okw_same _ x); [|reflexivity|reflexivity|exists []; reflexivity]
-      | |- okw _ (set_scoped ?x _) => apply (okw_same _ x); [|reflexivity|reflexivity|exists []; reflexivity]
-      | |- okw _ (set_blockers ?x _) => apply (okw_same _ x); [|reflexivity|reflexivity|exists []; reflexivity]
-      | |- okw _ (log ?e ?x) => apply (okw_same _ x); [|reflexivity|reflexivity|exists [e]; reflexivity]
+      | |- okw _ (set_sigs ?x _) => apply (okw_same _ x); [|reflexivity|reflexivity|exists []; split; [reflexivity|nd]]
+      | |- okw _ (set_handles ?x _) => apply (okw_same _ x); [|reflexivity|reflexivity|exists []; split; [reflexivity|nd]]
+      | |- okw _ (set_scoped ?x _) => apply (okw_same _ x); [|reflexivity|reflexivity|exists []; split; [reflexivity|nd]]
+      | |- okw _ (set_blockers ?x _) => apply (okw_same _ x); [|reflexivity|reflexivity|exists []; split; [reflexivity|nd]]
+      | |- okw _ (log ?e ?x) => apply (okw_same _ x); [|reflexivity|reflexivity|exists [e]; split; [reflexivity|nd]]
       | |- okw _ (impl_disconnect ?x ?i ?k) => apply (okw_step _ x); [|intros ?; apply impl_disconnect_ok; assumption]
       | |- okw _ (handle_disconnect ?x ?h) => apply (okw_step _ x); [|intros ?; apply handle_disconnect_ok; assumption]
       | |- okw _ (sig_disconnect_all ?x ?s) => apply (okw_step _ x); [|intros ?; apply sig_disconnect_all_ok; assumption]
       | |- okw _ (fst (impl_block ?x ?i ?k ?b)) => apply (okw_step _ x); [|intros ?; apply impl_block_ok; assumption]
       end ].
 
-Lemma wle_set_evs_new (P Q : nat -> Prop) w e s' :
-  lookup (w_evs w) e = None -> e_evaluating s' = false -> wle_on P Q w (set_evs w (bind_key (w_evs w) e s')).
+Lemma wle_set_evs_new (P Q T : nat -> Prop) w e s' :
+  lookup (w_evs w) e = None -> e_evaluating s' = false -> wle_on P Q T w (set_evs w (bind_key (w_evs w) e s')).
 Proof.
   intros He Hev. constructor.
   - intros i m H. exists m. split; [assumption|]. split; [apply issued_mono_refl|intros _; apply impl_keeps_refl].
@@ -745,7 +813,7 @@ Proof.
   - intros i m' H1 H2. unfold get_impl in *; cbn in H1; congruence.
   - intros e0 s0 H1 H2 _. cbn [w_evs set_evs] in H1. rewrite lookup_bind in H1.
     destruct (Nat.eqb_spec e0 e); [inversion H1; subst; assumption|congruence].
-  - exists []; reflexivity.
+  - exists []; split; [reflexivity|intros ? ? ? ? []].
 Qed.
 
 Section Step.
@@ -792,8 +860,8 @@ Section Step.
     all: try (unfold logb, ok, throw; apply okres_of_okw;
               match goal with Hb : winv ?w1 /\ wle _ ?w1 |- _ => destruct Hb as [Hb1 Hb2] end;
               repeat match goal with
-                     | |- okw _ (log ?e ?x) => apply (okw_same _ x); [|reflexivity|reflexivity|exists [e]; reflexivity]
-                     | |- okw _ (set_blockers ?x _) => apply (okw_same _ x); [|reflexivity|reflexivity|exists []; reflexivity]
+                     | |- okw _ (log ?e ?x) => apply (okw_same _ x); [|reflexivity|reflexivity|exists [e]; split; [reflexivity|nd]]
+                     | |- okw _ (set_blockers ?x _) => apply (okw_same _ x); [|reflexivity|reflexivity|exists []; split; [reflexivity|nd]]
                      end; split; assumption).
     all: try (match goal with Hb : winv ?x /\ wle ?w ?x |- okw ?w ?x => exact Hb end).
     - (* OBlDrop *)
@@ -830,7 +898,7 @@ Section Closed.
     intros Hw. unfold step.
     pose proof (step1_ok pass_fuel _ (script_good fuel) w o Hw) as [H1 L1].
     destruct (step1 pass_fuel (script tbl pass_fuel fuel) w o) as [w' r]. cbn [fst] in *.
-    split; [same_impls|]. eapply wle_on_trans; [exact L1|apply wle_log].
+    split; [same_impls|]. eapply wle_on_trans; [exact L1|apply wle_log; (let E := fresh in intros ? ? ? E; discriminate E)].
   Qed.
 
   Lemma winv_world0 : winv world0.
